@@ -2,6 +2,7 @@ import Driver.Util
 import Driver.SecAlg
 import Driver.Aper
 import Driver.NasCodec
+import Driver.NasCtor
 import Driver.SecHist
 import Driver.Milenage
 import Driver.Aka
@@ -9,12 +10,13 @@ import Driver.Extract
 import Driver.Suci
 import Driver.Ue
 import Driver.Conv
+import Driver.Config
 open Driver
 
 /-- op name → handler. Each domain lives in its own `Driver/<Domain>.lean` and exports `<domain>Handlers`;
     add one import above and one `++` here. -/
 def handlers : List (String × Handler) :=
-  secAlgHandlers ++ aperHandlers ++ secHistHandlers ++ milenageHandlers ++ akaHandlers ++ nasCodecHandlers ++ extractHandlers
+  secAlgHandlers ++ aperHandlers ++ secHistHandlers ++ milenageHandlers ++ akaHandlers ++ nasCodecHandlers ++ extractHandlers ++ configHandlers ++ nasCtorHandlers
     ++ suciHandlers ++ ueHandlers ++ convHandlers
 
 def step (line : String) : String :=
